@@ -93,6 +93,9 @@ def entails_check(ip, F, st, T, tlf_arg):
 
 def run_rules(ctx, F, A, X):
     ip = A.ip
+    # ---- an optional field is absent exactly for the marker byte 0x01 (anything else must satisfy T's own type check)
+    ctx.rule("R-C03-OPT", "Option<T> (shared with C03): None exactly for the single byte 0x01, otherwise T is parsed from the unchanged input")
+    c03.check_option(ctx, F, A, X)
     # ---- GUARD
     sites = []
     for b in F.bodies.values():
